@@ -136,20 +136,21 @@ type interpreter struct {
 	runtimeErrorString types.Type             // the runtime.errorString type (iff "runtime" is present)
 	sizes              types.Sizes            // the effective type-sizing function
 
-	ex        *Explorer
-	steps     int64
-	maxSteps  int64
-	depth     int
-	maxDepth  int
-	initAllow func(pkgPath string) bool // which package initialisers are executed
-	pools     map[*value][]value        // sync.Pool model: LIFO per pool object
-	syncMaps  map[*value]*omap          // sync.Map model: one insertion-ordered map per sync.Map object
-	fresh     func()                    // symFreshProcess: globals under test back to their initial values
-	stubs     map[string]value          // function redirections installed by a harness
-	monitor   *monitor
+	ex              *Explorer
+	steps           int64
+	maxSteps        int64
+	depth           int
+	maxDepth        int
+	initAllow       func(pkgPath string) bool // which package initialisers are executed
+	pools           map[*value][]value        // sync.Pool model: LIFO per pool object
+	syncMaps        map[*value]*omap          // sync.Map model: one insertion-ordered map per sync.Map object
+	fresh           func()                    // symFreshProcess: globals under test back to their initial values
+	panicOrigin     *ssa.Function             // innermost function in which the pending run-time error arose
+	stubs           map[string]value          // function redirections installed by a harness
+	monitor         *monitor
 	unsupportedSeen map[string]int
-	finfo     map[*ssa.Function]*funcInfo
-	underTest func(string) bool
+	finfo           map[*ssa.Function]*funcInfo
+	underTest       func(string) bool
 }
 
 type deferred struct {
@@ -164,7 +165,7 @@ type frame struct {
 	caller           *frame
 	fn               *ssa.Function
 	block, prevBlock *ssa.BasicBlock
-	env              []value             // dynamic values of SSA variables, indexed by info.index
+	env              []value // dynamic values of SSA variables, indexed by info.index
 	info             *funcInfo
 	locals           []value
 	defers           *deferred
@@ -686,6 +687,9 @@ func runFrame(fr *frame) {
 				fmt.Fprintf(os.Stderr, "PANIC in %s: %v\n%s\n", fr.fn, p, buf)
 			}
 		}
+		if _, isRT := p.(runtime.Error); isRT && fr.i.panicOrigin == nil {
+			fr.i.panicOrigin = fr.fn
+		}
 		fr.panicking = true
 		fr.panic = p
 		if fr.i.mode&EnableTracing != 0 {
@@ -773,7 +777,16 @@ func doRecover(caller *frame) value {
 			// The target program explicitly called panic().
 			return p.v
 		case runtime.Error:
-			// The interpreter encountered a runtime error.
+			// The interpreter encountered a runtime error. It may be a run-time panic of the
+			// target or a limitation of the interpreter (library code it cannot execute): the two
+			// are indistinguishable here, and a recover() in the code under test or in a harness
+			// would hide the second kind. The path is marked inconclusive; a genuine panic of the
+			// target is still reported through the harness's own assertion and its native replay.
+			origin := caller.i.panicOrigin
+			caller.i.panicOrigin = nil
+			if caller.i.ex != nil && origin != nil && origin.Pkg != nil && caller.i.underTest != nil && !caller.i.underTest(origin.Pkg.Pkg.Path()) {
+				caller.i.ex.inconclusive("a Go run-time error that arose inside " + origin.String() + " (library code, possibly beyond the interpreter) was recovered by the executed code: " + p.Error())
+			}
 			return caller.i.runtimeError(p.Error())
 		case string:
 			// The interpreter explicitly called panic().
